@@ -23,8 +23,8 @@ ID = "C07"
 LEVEL = "model_checking"
 TECHNIQUE = "explicit-state BFS over real storage objects (all dump keys as transitions, full read alphabet on every state) against a reference masked NumPy array"
 RULE = ("backends FileArray (rank <= 2 also with a custom filename_template), DictArray, SharedMemoryDictArray x full shapes (3,), (2,3) (thorough: (3,) depth 5, (2,3) depth 3, (3,2) depth 2, (2,3,2) depth 1) x all 2^rank external/internal masks; "
-        "transitions = dump(key, fresh value; for the all-external masks of rank <= 2 also the same exploration with None as the value of every odd write) for EVERY external key tuple over ints in [-n,n) and slices {:, ::2, ::-1, 1:}; reads on every state = "
-        "__getitem__ for every full-rank key tuple from the same per-axis menu, to_array(splat_internal None/False/True), mask, mask_linear, has_index, "
+        "transitions = dump(key, fresh value; for the all-external masks of rank <= 2 also the same exploration with None as the value of every odd write; for masks with internal axes of rank <= 2 also with every odd element handed over as a nested Python list instead of an ndarray) for EVERY external key tuple over ints in [-n,n) and slices {:, ::2, ::-1, 1:}; reads on every state = "
+        "__getitem__ for every full-rank key tuple from the same per-axis menu, to_array(splat_internal None/False/True), mask, mask_linear, has_index, (mask, mask_linear and every all-int element read also BETWEEN the writes of a history, on the same object) "
         "get_from_index, persist+reopen, and error keys (each axis out of range by +-1, rank +-1). SharedMemoryDictArray at depth 1 for rank 2 in quick (every proxy call is an RPC). States merged by stored content with values renamed by first appearance")
 ASSUMPTIONS = ["reference = numpy masked object array of the full shape (vmc/props/c07.py:Ref)",
                "a masked scalar, np.ma.masked inside an object array and a set mask bit all denote 'missing'",
@@ -79,6 +79,9 @@ def value_for(cfg, step):
     _, _, _, internal = geometry(cfg)
     if cfg.get("values") == "none-odd" and not internal and step % 2 == 1:
         return None  # None is a legitimate element of an object array: written, not missing
+    if cfg.get("values") == "list-odd" and internal and step % 2 == 1:
+        # an element with internal axes handed over as a (nested) Python list instead of an ndarray
+        return terms.term_array(f"v{step}", "", internal).tolist()
     return terms.term_array(f"v{step}", "", internal) if internal else f"v{step}"
 
 
@@ -170,6 +173,18 @@ def replay_history(cfg, hist):
                 mid.append((f"mask_linear after {after} writes (reads interleaved)", str(got_l), str(norm(em.reshape(-1)))))
         except Exception as e:  # noqa: BLE001
             mid.append((f"mask read after {after} writes", f"raised {type(e).__name__}: {str(e)[:60]}", "a mask"))
+        # element reads between the writes too (a read cache that a later dump fails to invalidate is only visible when the
+        # SAME object has read the element before it is overwritten): every all-int key with the internal axes at 0
+        try:
+            for eidx in itertools.product(*map(range, ref.ext)):
+                it = iter(eidx)
+                fk = tuple(next(it) if m_ else 0 for m_ in ref.mask_axes)
+                got = norm(arr[fk])
+                want = norm(ref.get(fk))
+                if got != want:
+                    mid.append((f"arr[{fk}] after {after} writes (reads interleaved)", str(got), str(want)))
+        except Exception as e:  # noqa: BLE001
+            mid.append((f"element read after {after} writes", f"raised {type(e).__name__}: {str(e)[:60]}", "an element"))
 
     cheap_reads(0)
     for step, kj in enumerate(hist, 1):
@@ -401,6 +416,10 @@ def plan(tier, seed):
                     # the same exploration with None as the value of every odd write (a written None is not a missing element)
                     for c in range(nch):
                         units.append((f"rank{len(full)}-depth{depth}-none-values", ("bfs", {**cfg, "values": "none-odd"}, depth_b, c, nch)))
+                if not all(mask) and len(full) <= 2:
+                    # internal axes, every odd write hands the element over as a nested list (same reads as for ndarrays)
+                    for c in range(nch):
+                        units.append((f"rank{len(full)}-depth{depth}-list-values", ("bfs", {**cfg, "values": "list-odd"}, depth_b, c, nch)))
     by = {}
     for st, u in units:
         by.setdefault(st, []).append((st, u))
